@@ -201,13 +201,13 @@ func cmdReplayRewrites(args []string) error {
 		t := rwText(v.T, s.Exc, s.Important)
 		r, err := rules.NewNetworkRule(t, 1)
 		if err != nil || r.DNSRewrite == nil {
-			return fmt.Errorf("symbol rule %q rejected: %v", t, err)
+			return rejectedErr("symbol rule %q rejected: %v", t, err)
 		}
 		// renderer self-check: the parsed value is what the specification's table says
 		p := projectRewrite(r)
 		if p.Cname != v.V.Cname || p.Rcode != v.V.Rcode || p.Rrtype != v.V.Rrtype || r.Whitelist != s.Exc ||
 			r.IsOptionEnabled(rules.OptionImportant) != s.Important {
-			return fmt.Errorf("symbol %q parsed as %+v, the specification's table says %+v", t, p, v.V)
+			return rejectedErr("symbol %q is parsed as %+v, the specification's table says %+v", t, p, v.V)
 		}
 		symText[s.ID], symRule[s.ID], textSym[t] = t, r, s.ID
 	}
@@ -419,10 +419,19 @@ func cmdDriveRewrites(args []string) error {
 				continue
 			}
 			if _, perr := rules.NewNetworkRule(t, 1); perr != nil {
-				return fmt.Errorf("generator produced an invalid rule %q: %v", t, perr)
+				return rejectedErr("the parser rejects the valid rule %q: %v", t, perr)
 			}
 			seen[t] = true
 			texts = append(texts, t)
+		}
+		// a malformed value (RewriteValue.tla: rejected) next to the valid ones: the line has no effect at all - if the
+		// parser takes it for a rule the event becomes one no specification accepts
+		if rnd.Intn(3) == 0 {
+			bad := rwText([]string{"NOERROR;MX;65546 mx.test", "NOERROR;MX;65536 c1.test", "NOERROR;A;999.1.1.1", "NOERROR;SRV;1 2 80",
+				"NOERROR;MX;-1 mx.test", "NOERROR;AAAA;1.1.1.1", "NOERROR;SRV;1 65536 80 c1.test"}[rnd.Intn(7)], rnd.Intn(2) == 0, false)
+			if r, perr := rules.NewNetworkRule(bad, 1); perr == nil && r != nil {
+				out.write(rwEvent{All: []rwAbs{{Exc: r.Whitelist, Val: rwVal{Rcode: "MALFORMED-VALUE-ACCEPTED"}}}, Got: []int{0}, Entry: "parse: " + bad, List: []string{bad}})
+			}
 		}
 		entry := "direct"
 		if rnd.Intn(4) == 0 && len(texts) > 0 {
